@@ -2677,6 +2677,124 @@ fn round_nest(seed: u64, hb: &Heartbeat, tot: &Mutex<Tot>, prop: &str) {
 }
 
 // ---------------------------------------------------------------------------------------------
+// killstorm: several OS threads are inside kill() at the same instant, each on actors of its own. kill() is a per-actor
+// operation: whatever other kill() calls are in progress elsewhere in the process, a kill() that returns Ok on a running actor
+// ends that actor (killed=true), without blocking.
+// ---------------------------------------------------------------------------------------------
+fn round_killstorm(seed: u64, hb: &Heartbeat, tot: &Mutex<Tot>, prop: &str) {
+    use ab::*;
+    let mut r = Rng::new(seed);
+    let nthreads = 2 + r.below(5) as usize;
+    let batch = 8 + r.below(56) as usize;
+    let erased = r.chance(30);
+    let rt = tokio::runtime::Builder::new_multi_thread().worker_threads(2).enable_time().build().unwrap();
+    let bucket0 = hb.now_bucket();
+    let handled = Arc::new(AtomicU64::new(0));
+    let mut groups = vec![];
+    let mut jhs = vec![];
+    rt.block_on(async {
+        for _ in 0..nthreads {
+            let mut g = vec![];
+            for _ in 0..batch {
+                let (a, jh) = rsactor::spawn::<A>(Args { handled: handled.clone(), start_ms: 0, ticks: false });
+                let _ = a.ask(Work(0, 0)).await;
+                g.push(a);
+                jhs.push(jh);
+            }
+            groups.push(g);
+        }
+    });
+    let go = Arc::new(AtomicBool::new(false));
+    let ready = Arc::new(AtomicU64::new(0));
+    let mut ths = vec![];
+    for g in groups {
+        let (go, ready) = (go.clone(), ready.clone());
+        ths.push(std::thread::spawn(move || {
+            use rsactor::ActorControl;
+            let ctl: Vec<Box<dyn ActorControl>> = if erased { g.iter().map(|a| a.into()).collect() } else { vec![] };
+            ready.fetch_add(1, Ordering::SeqCst);
+            while !go.load(Ordering::Acquire) {
+                std::hint::spin_loop();
+            }
+            let t = Instant::now();
+            let mut errs = 0u64;
+            if erased {
+                for c in &ctl {
+                    if c.kill().is_err() {
+                        errs += 1;
+                    }
+                }
+            } else {
+                for a in &g {
+                    if a.kill().is_err() {
+                        errs += 1;
+                    }
+                }
+            }
+            (errs, t.elapsed(), g)
+        }));
+    }
+    while ready.load(Ordering::SeqCst) < nthreads as u64 {
+        std::thread::yield_now();
+    }
+    go.store(true, Ordering::Release);
+    let mut errs = 0u64;
+    let mut slowest = Duration::ZERO;
+    let mut keep = vec![];
+    for t in ths {
+        if let Ok((e, d, g)) = t.join() {
+            errs += e;
+            slowest = slowest.max(d);
+            keep.push(g);
+        }
+    }
+    let total = jhs.len();
+    let (mut not_ended, mut not_killed) = (0usize, vec![]);
+    rt.block_on(async {
+        let deadline = tokio::time::Instant::now() + Duration::from_secs(6);
+        for jh in jhs {
+            match tokio::time::timeout_at(deadline, jh).await {
+                Ok(Ok(rsactor::ActorResult::Completed { killed: true, .. })) => {}
+                Ok(Ok(other)) => not_killed.push(format!("{:?}", (other.is_completed(), other.was_killed()))),
+                Ok(Err(e)) => not_killed.push(format!("JoinError {e}")),
+                Err(_) => not_ended += 1,
+            }
+        }
+    });
+    drop(keep);
+    let stalled = hb.max_late_since(bucket0) > STALL_US;
+    rt.shutdown_timeout(Duration::from_secs(2));
+    let mut t = tot.lock().unwrap();
+    t.rounds += 1;
+    t.hashes.insert(mix(nthreads as u64 * 64 + batch as u64, erased as u64));
+    *t.nontrivial.entry("C06".into()).or_default() += 1;
+    *t.obl.entry("C06.preempt").or_default() += total as u64;
+    *t.obl.entry("C06.nonblocking").or_default() += total as u64;
+    let mut v: Vec<(&str, String)> = vec![];
+    if errs > 0 {
+        v.push(("C06.nonblocking", format!("[killstorm] {errs} of {total} kill() calls on running actors returned Err")));
+    }
+    if not_ended > 0 {
+        if stalled {
+            t.inconclusive.push(format!("[killstorm] round {seed}: {not_ended} actors had not ended 6 s after kill() on a stalled machine"));
+        } else {
+            v.push(("C06.preempt", format!("[killstorm] {nthreads} threads called kill() at the same instant, each on {batch} idle actors of its own ({}); every call returned Ok, yet {not_ended} of the {total} actors had not ended 6 s later", if erased { "through Box<dyn ActorControl>" } else { "through ActorRef" })));
+        }
+    }
+    if !not_killed.is_empty() {
+        v.push(("C06.killed", format!("[killstorm] {} of {total} actors ended by kill() do not report Completed {{ killed: true }}: {:?}", not_killed.len(), &not_killed[..not_killed.len().min(3)])));
+    }
+    if slowest > Duration::from_millis(500) && !stalled {
+        v.push(("C06.nonblocking", format!("[killstorm] a thread needed {slowest:?} for {batch} kill() calls")));
+    }
+    for (c, m) in v {
+        if prop == "all" || c.starts_with(prop) {
+            t.viol.push((c.into(), m, seed, "killstorm".into()));
+        }
+    }
+}
+
+// ---------------------------------------------------------------------------------------------
 // lastslot: several senders on different worker threads go for the last free slot(s) of a mailbox at the same instant with
 // tell_with_timeout, while the actor is parked in a handler for longer than the timeout. Exactly as many as there are free
 // slots succeed at once; the others WAIT (C09) and come back with Timeout at their deadline - not earlier, not with another
@@ -3875,6 +3993,16 @@ pub fn cmd_mt(a: &Args) -> i32 {
                     }
                 }
             }
+            "killstorm" => {
+                let mut n = 0u64;
+                while tp.elapsed() < per_profile {
+                    n += 1;
+                    round_killstorm(mix(base, ((pi as u64) << 56) ^ n), &hb, &tot, &prop);
+                    if tot.lock().unwrap().viol.len() > 3 {
+                        break;
+                    }
+                }
+            }
             "nest" => {
                 let mut n = 0u64;
                 while tp.elapsed() < per_profile {
@@ -3981,7 +4109,7 @@ pub fn cmd_mt(a: &Args) -> i32 {
     #[cfg(feature = "f_testutils")]
     {
         let d = rsactor::dead_letter_count() - dl0;
-        if !tainted.load(Ordering::Relaxed) && profiles.iter().all(|p| p != "spawnstorm" && p != "tightrace" && p != "starve" && p != "mutualask" && p != "abort" && p != "reentrant" && p != "dropspin" && p != "metricsrace" && p != "undriven" && p != "dlrace" && p != "dropsend" && p != "lastslot" && p != "hookblocking" && p != "bigmsg" && p != "nest") {
+        if !tainted.load(Ordering::Relaxed) && profiles.iter().all(|p| p != "spawnstorm" && p != "tightrace" && p != "starve" && p != "mutualask" && p != "abort" && p != "reentrant" && p != "dropspin" && p != "metricsrace" && p != "undriven" && p != "dlrace" && p != "dropsend" && p != "lastslot" && p != "hookblocking" && p != "bigmsg" && p != "nest" && p != "killstorm") {
             *t.obl.entry("C13.counter").or_default() += 1;
             t.extra.insert("dead_letter_count_delta".into(), d);
             let fl = t.failures;
